@@ -49,6 +49,13 @@ def make_jobs(rnd, tier):
             a = clip(rnd.choice([lo - 1, lo, hi - 1, hi, hi + 1, rnd.randrange(lo - 1, hi + 2)]))
             add(p, n, [["input", 0, "priv", 0], ["const", 1, ["int", lo]], ["const", 2, ["int", hi]], ["meth", 3, "assert_range", None, 0, [1, 2]]], [a], "assert_range", "priv/int/int")
             add(p, n, [["input", 0, "priv", 0], ["input", 1, "priv", 1], ["input", 2, "priv", 2], ["meth", 3, "assert_range", None, 0, [1, 2]]], [a, lo, hi], "assert_range", "priv/priv/priv")
+        # an n-bit declaration repeated after the same object was decomposed inside a guarded region
+        for _ in range(per * 2):
+            c = rnd.choice([0, 1]); w = rnd.choice([n, max(1, n - 1)])
+            a = clip(rnd.choice([0, 1, 2 ** w - 1, 2 ** w, -1, rnd.randrange(0, 2 ** w)]))
+            m2 = rnd.choice(["to_bits", "assert_positive"])
+            add(p, n, [["input", 0, "priv", 0], ["input", 1, "priv", 1], ["guarded", 0, [["meth", 2, "to_bits", (None if w == n else w), 1, []]]], ["meth", 3, m2, (None if w == n else w), 1, []]],
+                [c, a], "%s-after-guarded-to_bits" % m2, "priv/priv")
         # boolean declaration of a secret through _ensurebool (LinCombBool & LinComb)
         for _ in range(per):
             a = rnd.choice([0, 1, 2, -1, 1, 0])
